@@ -49,7 +49,7 @@ def gen_ref(rng):
 	if kind == 0:
 		return rng.choice([u'http', u'https', u'ftp', u'x']) + u'://' + rng.choice([u'b', u'B.c', u'u@b:81']) + u'/' + segs + q + f
 	if kind == 1:
-		return u'//' + rng.choice([u'b', u'B.c:8080', u'u:p@b', u'u:p:w@b', u'u::@b:81', u'[::1]:8080', u'[2001:DB8::A]', u'127.0.0.1']) + rng.choice([u'', u'/' + segs]) + q + f
+		return u'//' + rng.choice([u'b', u'B.c:8080', u'u:p@b', u'u:p:w@b', u'u::@b:81', u'us%3Aer:pw@g', u'u%40v:p%3Aw@g', u'[::1]:8080', u'[2001:DB8::A]', u'127.0.0.1']) + rng.choice([u'', u'/' + segs]) + q + f
 	if kind == 2:
 		return u'/' + segs + q + f
 	if kind in (3, 4, 5):
